@@ -18,11 +18,11 @@ done
 for d in /verif/seeded/refactors/refactor*.diff; do
   n=$(basename $d .diff)
   git checkout -q -- src; patch -p1 -s < $d || { echo "$n: does not apply"; continue; }
-  for k in psi filters packet pes iters pmt tables; do
+  for k in psi filters packet pes iters pmt tables push; do
     r=$(/verif/tools/try_tie.sh $k $W 2>&1 | grep -c "TIE-OK")
     [ "$r" = 1 ] || { echo "$n ($k): TIE BROKEN"; bad=1; }
   done
-  echo "$n: all seven translators ok"
+  echo "$n: all eight translators ok"
 done
 git checkout -q -- src
 exit $bad
